@@ -292,6 +292,23 @@ def startup_part(work, rep, tier, seed, prop):
     return events
 
 
+def keytypes_part(work, rep, seed, prop):
+    """every kind of log key the configuration format admits, through config.NewLog and a real witness; judged by Trace_Start (C02, C19)"""
+    build_driver()
+    tp = work.path("keytypes.ndjson")
+    o, dt = run_driver(["keytypes", "-out", tp, "-seed", str(seed)])
+    rep.notes.append(o.strip())
+    c = {"MaxEntries": 2, "Origins": {"o1", "o2"}, "SchemePanics": True}
+    jr = tlc(work, "Trace_Start", cfg_text(spec="JSpec", constants=dict(c, TraceFile=tp), action_constraints=["Monitor"], postcondition="Done"), name="judge-keytypes", workers=1, timeout=600)
+    if not jr.ok:
+        raise Inconclusive("key-type judge failed: %s\n%s" % (jr.error or jr.violated, jr.out[-2000:]))
+    events = read_ndjson(tp)
+    fails = [["FAIL", f["id"], f["name"], f["i"], f["run"], f["k"], f["sig"]] for f in map(json.loads, jr.prints("FAIL"))]
+    seqfam.settle(rep, prop, fails, events, c)
+    rep.cov["key_kinds_exercised"] = [e["alg"] for e in events]
+    rep.cov["evaluations"] += len(events)
+
+
 def c17(work, tier, seed, replay):
     rep = Report("C17", tier, seed, "model_checking")
     events = startup_part(work, rep, tier, seed, "C17")
@@ -368,6 +385,7 @@ def c19(work, tier, seed, replay):
             fails.append(["FAIL", f["id"], f["name"], f["i"] + start, f["run"], f["k"], f["sig"]])
         os.remove(cp)
     seqfam.settle(rep, "C19", fails, events, {})
+    keytypes_part(work, rep, seed, "C19")
     # (3) the add-checkpoint endpoint: one valid request per verdict class and body class (TLC-emitted transitions of MC_Bastion) plus byte-level mutations
     c = cb.bconsts("quick", MaxSize=2, Olds={0, 1, 2, 3}, BadKinds={"random", "flip"})
     cfg = cfg_text(spec="BSpec", constants=c, invariants=["TypeOK"], properties=["AnswersDocumented"], view="BView", action_constraints=["BEmit"])
